@@ -147,7 +147,9 @@ impl RK4 {
 
             // Adjust last step so we land exactly on xend
             let mut last = false;
+            let mut h = h; // size of this step; the fixed step itself is left untouched
             if (x + 1.01 * h - xend) * h.signum() > 0.0 {
+                h = xend - x;
                 last = true;
             }
 
